@@ -20,6 +20,7 @@ import Otel.Base.Wire
 import Otel.C07.Spec
 import Otel.C07.Collect
 import Otel.C07.Path
+import Otel.C07.Int64
 open Otel Otel.Wire Otel.C07
 
 namespace Otel.C07.Drv
@@ -452,20 +453,36 @@ def showHist : Option Hist → String
 
 def stepHist (inp obs : List String) : Option Verdict :=
   match inp, obs with
-  | ["hist", _, _, _, bs, "|", vs], [pt, osb, oc, ocount, osum, omin, omax] =>
+  | ["hist", _, kd, _, bs, "|", vs], [pt, osb, oc, ocount, osum, omin, omax] =>
     match parseCsvInt bs, parseCsvInt vs, parseCsvInt osb, parseCsvNat oc, parseNat ocount, parseInt osum,
           parseInt omin, parseInt omax with
     | some raw, some vals, some sorted, some counts, some count, some sum, some mn, some mx =>
-      let m := histRun raw vals
+      -- int64 instruments: the int64 instantiation (float64(value) for the bucket search, wrapping int64 sum)
+      let m := if kd == "i" then histRunI64 raw vals else histRun raw vals
       let obsH : Option Hist := if pt == "P" then some ⟨counts, count, sum, mn, mx⟩ else none
       let agree := m == obsH && sortBounds raw == sorted
-      let spec := Spec.histOK raw sorted vals obsH
+      let specOK := Spec.histOK raw sorted vals obsH
+      -- F49 (int64 only): the predicate holds and the placement clause is the only one that fails — every other
+      -- clause holds of the observed point and its buckets are those of the rounded values
+      let f49 := kd == "i" && Spec.int64_beyond_2p53_at_boundary sorted vals
+      let onlyPlacement := match obsH with
+        | some h =>
+          Spec.histOK raw sorted (vals.map f64OfInt)
+            (some ⟨h.counts, h.count, (vals.map f64OfInt).sum, Spec.minList (vals.map f64OfInt),
+                   Spec.maxList (vals.map f64OfInt)⟩) &&
+          h.total == vals.sum && h.min == Spec.minList vals && h.max == Spec.maxList vals
+        | none => false
       let tags := (if vals.isEmpty then ["empty"] else []) ++
         (if raw != sorted then ["unsorted"] else []) ++
         (if vals.any (fun v => sorted.contains v) then ["on-bound"] else []) ++
         (if vals.any (fun v => searchIdx sorted v == sorted.length) then ["overflow-bucket"] else []) ++
-        (if vals.any (fun v => searchIdx sorted v == 0) then ["first-bucket"] else [])
-      some { agree := agree, spec := if spec then "ok" else "FAIL", nontrivial := decide (vals.length ≥ 2),
+        (if vals.any (fun v => searchIdx sorted v == 0) then ["first-bucket"] else []) ++
+        (if kd == "i" then ["int64"] else []) ++
+        (if kd == "i" && vals.any (fun v => decide (v.natAbs ≥ 2 ^ 53)) then ["int64-beyond-2p53"] else []) ++
+        (if kd == "i" && Spec.int64_beyond_2p53_at_boundary sorted vals then ["F49"] else [])
+      some { agree := agree,
+             spec := if specOK then "ok" else if f49 && onlyPlacement then "KNOWN:F49" else "FAIL",
+             nontrivial := decide (vals.length ≥ 2),
              branches := if tags.isEmpty then "-" else ",".intercalate tags, model := showHist m }
     | _, _, _, _, _, _, _, _ => none
   | _, _ => none
